@@ -1879,6 +1879,7 @@ var parts = []struct {
 	{"bind-receiver", 2, bindRecv},
 	{"bind-receiver-shared", 1, bindRecvShared},
 	{"after-failed-write", 2, afterFailedWrite},
+	{"shared-config", 1, sharedConfig},
 }
 
 func runCase(c *core.Case) {
